@@ -51,4 +51,10 @@ TEXT = {
         "level_note": TRUST + " Absence of hangs is judged by a deadline three to four orders of magnitude above the normal cost and confirmed in fresh processes; a non-reproducible death is reported as inconclusive (exit 2), never as a violation.",
         "technique": "property-based robustness testing (rapid) with process-level crash/hang detection and journal replay; native go fuzzing in the thorough tier",
     },
+    "C05": {
+        "level_text": "Complete fault enumeration: for every path depth d <= 4 (quick) / 5 (thorough) every combination of {absent, returns, panics, calls Exit} over the 2d+3 hooks is executed against the real library and compared with a reference model of the statement (hook order and multiplicity recorded by the hooks themselves, the exit stub's call recorded in the same log, panic value identity); random plans to depth 8 with sibling/descendant commands extend it beyond the bound.",
+        "design_ref": "DESIGN.md section 5 (C05)",
+        "level_note": TRUST + " Exhaustive up to the stated depth only; the exit function is a non-returning stub installed through the verif hook.",
+        "technique": "exhaustive fault-plan enumeration against a reference model, plus rapid-generated deeper plans",
+    },
 }
